@@ -9,7 +9,7 @@ the signature with `idx = i`.
 * `QRep db log`  : what the queries need (index, identifiers, names, idx ↦ lineage)
 * `LinInv db`    : consistency of the two lineage-id tables, needed to keep inserting
 * `insert_ok`    : an accepted insertion appends its entry and keeps both
-* `insert_error` : a refused insertion changes nothing (database not loaded from JSON)
+* `insert_error` : a refused insertion changes nothing
 -/
 import SmVerif.Lemmas.Dict
 import SmVerif.Model.LcaDb
@@ -55,6 +55,7 @@ structure LinInv (db : Db) : Prop where
   to_lid : ∀ lin lid, get? db.lineageToLid lin = some lid → get? db.lidToLineage lid = some lin
   lid_lt : ∀ lid, lid ∈ keys db.lidToLineage → lid < db.nextLid
   lid_nodup : (keys db.lidToLineage).Nodup
+  lid_used : ∀ lid, lid ∈ keys db.lidToLineage → lid ∈ vals db.idxToLid
 
 /-! ### small facts about the specification side -/
 
@@ -201,22 +202,25 @@ theorem get?_identIdx_none {log : List Entry} {s : String} (h : s ∉ log.map En
 
 theorem getLineageId_spec {db : Db} (hl : LinInv db) (lin : Lineage) :
     let r := db.getLineageId lin
-    LinInv r.1 ∧ get? r.1.lidToLineage r.2 = some lin ∧
+    (∀ l lid, get? r.1.lineageToLid l = some lid → get? r.1.lidToLineage lid = some l) ∧
+      (∀ lid, lid ∈ keys r.1.lidToLineage → lid < r.1.nextLid) ∧
+      (keys r.1.lidToLineage).Nodup ∧
+      (∀ lid, lid ∈ keys r.1.lidToLineage → lid ∈ keys db.lidToLineage ∨ lid = r.2) ∧
+      get? r.1.lidToLineage r.2 = some lin ∧
       (∀ lid l, get? db.lidToLineage lid = some l → get? r.1.lidToLineage lid = some l) ∧
       r.1.identToIdx = db.identToIdx ∧ r.1.identToName = db.identToName ∧ r.1.idxToLid = db.idxToLid ∧
-      r.1.hashvalToIdx = db.hashvalToIdx ∧ r.1.nextIndex = db.nextIndex ∧ r.1.loaded = db.loaded ∧
+      r.1.hashvalToIdx = db.hashvalToIdx ∧ r.1.nextIndex = db.nextIndex ∧
       r.1.scaled = db.scaled ∧ r.1.ksize = db.ksize ∧ r.1.moltype = db.moltype := by
   unfold Db.getLineageId
   cases hg : get? db.lineageToLid lin with
   | some lid =>
     simp only
-    exact ⟨hl, hl.to_lid lin lid hg, fun _ _ h => h, by simp⟩
+    exact ⟨hl.to_lid, hl.lid_lt, hl.lid_nodup, fun _ h => Or.inl h, hl.to_lid lin lid hg, fun _ _ h => h, by simp⟩
   | none =>
     simp only
     have hfresh : db.nextLid ∉ keys db.lidToLineage := fun hm => Nat.lt_irrefl _ (hl.lid_lt _ hm)
-    refine ⟨⟨?_, ?_, nodup_keys_set hl.lid_nodup _ _⟩, get?_set_self _ _ _, ?_, by simp⟩
+    refine ⟨?_, ?_, nodup_keys_set hl.lid_nodup _ _, ?_, get?_set_self _ _ _, ?_, by simp⟩
     · intro lin' lid' h'
-      simp only at h' ⊢
       rw [get?_set] at h'
       by_cases he : lin' = lin
       · simp only [he, if_true, Option.some.injEq] at h'
@@ -232,11 +236,13 @@ theorem getLineageId_spec {db : Db} (hl : LinInv db) (lin : Lineage) :
         rw [get?_set_ne _ _ hne]
         exact h2
     · intro lid hm
-      simp only at hm ⊢
       rw [mem_keys_set] at hm
       rcases hm with hm | hm
       · have := hl.lid_lt lid hm; omega
       · omega
+    · intro lid hm
+      rw [mem_keys_set] at hm
+      exact hm
     · intro lid l h'
       have hne : lid ≠ db.nextLid := by
         intro e
@@ -273,23 +279,18 @@ theorem insert_unfold (db : Db) (sig : Sig) (ident : String) (lineage : Lineage)
           | .error e => (db1, .error e)
           | .ok (db2, idx) =>
             let db3 := withLineage db2 idx lineage
-            if db3.loaded then
-              match kept with
-              | [] => (db3, .ok 0)
-              | h :: _ => (db3, .error (if contains db3.hashvalToIdx h then .attribute else .key))
-            else
-              ({ db3 with hashvalToIdx := addHashes db3.hashvalToIdx idx kept }, .ok kept.length) := by
+            ({ db3 with hashvalToIdx := addHashes db3.hashvalToIdx idx kept }, .ok kept.length) := by
   unfold Db.insert withLineage
   rfl
 
 /-- an accepted insertion appends its entry to the log and keeps the invariants -/
-theorem insert_ok {db : Db} {log : List Entry} (hq : QRep db log) (hl : LinInv db) (hnl : db.loaded = false)
+theorem insert_ok {db : Db} {log : List Entry} (hq : QRep db log) (hl : LinInv db)
     {sig : Sig} {ident : String} {lineage : Lineage} {db' : Db} {n : Nat}
     (h : db.insert sig ident lineage = (db', .ok n)) :
     ∃ kept, sig.downTo db.scaled = .ok kept ∧ n = kept.length ∧
       (if ident = "" then sig.str else ident) ∉ log.map Entry.ident ∧
       sig.ksize = db.ksize ∧ sig.moltype = db.moltype ∧
-      QRep db' (log ++ [entryOf sig ident lineage kept]) ∧ LinInv db' ∧ db'.loaded = false ∧
+      QRep db' (log ++ [entryOf sig ident lineage kept]) ∧ LinInv db' ∧
       db'.scaled = db.scaled ∧ db'.ksize = db.ksize ∧ db'.moltype = db.moltype := by
   rw [insert_unfold] at h
   by_cases hk : sig.ksize ≠ db.ksize
@@ -323,7 +324,6 @@ theorem insert_ok {db : Db} {log : List Entry} (hq : QRep db log) (hl : LinInv d
     have e_ksize : db2.ksize = db.ksize := by rw [← hdb2]
     have e_scaled : db2.scaled = db.scaled := by rw [← hdb2]
     have e_mol : db2.moltype = db.moltype := by rw [← hdb2]
-    have e_loaded : db2.loaded = db.loaded := by rw [← hdb2]
     have e_hv : db2.hashvalToIdx = db.hashvalToIdx := by rw [← hdb2]
     have e_i2l : db2.idxToLid = db.idxToLid := by rw [← hdb2]
     have e_l2l : db2.lidToLineage = db.lidToLineage := by rw [← hdb2]
@@ -335,10 +335,14 @@ theorem insert_ok {db : Db} {log : List Entry} (hq : QRep db log) (hl : LinInv d
       · intro lin lid hh; rw [← hdb2] at hh ⊢; exact hl.to_lid lin lid hh
       · intro lid hh; rw [← hdb2] at hh ⊢; exact hl.lid_lt lid hh
       · rw [← hdb2]; exact hl.lid_nodup
+      · intro lid hh; rw [← hdb2] at hh ⊢; exact hl.lid_used lid hh
+    have hidxfresh : db.nextIndex ∉ keys db2.idxToLid := by
+      rw [e_i2l, ← get?_eq_none_iff]
+      exact hq.lineage_oob _ (by rw [hq.nextIndex]; exact Nat.le_refl _)
     -- the lineage step
     have hw : ∃ db3, withLineage db2 db.nextIndex lineage = db3 ∧ LinInv db3 ∧
         db3.identToIdx = db2.identToIdx ∧ db3.identToName = db2.identToName ∧
-        db3.hashvalToIdx = db2.hashvalToIdx ∧ db3.nextIndex = db2.nextIndex ∧ db3.loaded = db2.loaded ∧
+        db3.hashvalToIdx = db2.hashvalToIdx ∧ db3.nextIndex = db2.nextIndex ∧
         db3.scaled = db2.scaled ∧ db3.ksize = db2.ksize ∧ db3.moltype = db2.moltype ∧
         (∀ lid l, get? db2.lidToLineage lid = some l → get? db3.lidToLineage lid = some l) ∧
         (∀ i, i ≠ db.nextIndex → get? db3.idxToLid i = get? db2.idxToLid i) ∧
@@ -348,11 +352,16 @@ theorem insert_ok {db : Db} {log : List Entry} (hq : QRep db log) (hl : LinInv d
       unfold withLineage
       by_cases hlin : lineage ≠ []
       · rw [if_pos hlin]
-        obtain ⟨g1, g2, g3, g4, g5, g6, g7, g8, g9, g10, g11, g12⟩ := getLineageId_spec hl2 lineage
-        refine ⟨⟨?_, ?_, ?_⟩, g4, g5, g7, g8, g9, g10, g11, g12, g3, ?_, ?_, ?_⟩
-        · exact g1.to_lid
-        · exact g1.lid_lt
-        · exact g1.lid_nodup
+        obtain ⟨ga, gb, gc, gd, g2, g3, g4, g5, g6, g7, g8, g10, g11, g12⟩ := getLineageId_spec hl2 lineage
+        refine ⟨⟨ga, gb, gc, ?_⟩, g4, g5, g7, g8, g10, g11, g12, g3, ?_, ?_, ?_⟩
+        · intro lid hm
+          simp only
+          have hnk : db.nextIndex ∉ keys (db2.getLineageId lineage).1.idxToLid := by rw [g6]; exact hidxfresh
+          rw [set_of_not_mem _ hnk, vals_eq_map, List.map_append, ← vals_eq_map, g6]
+          simp only [List.map_cons, List.map_nil, List.mem_append, List.mem_cons, List.not_mem_nil, or_false]
+          rcases gd lid hm with h1 | h1
+          · exact Or.inl (hl2.lid_used lid h1)
+          · exact Or.inr h1
         · intro i hi
           simp only
           rw [get?_set_ne _ _ hi, g6]
@@ -360,14 +369,13 @@ theorem insert_ok {db : Db} {log : List Entry} (hq : QRep db log) (hl : LinInv d
           exact ⟨_, get?_set_self _ _ _, g2⟩
         · intro hc2; exact absurd hc2 hlin
       · rw [if_neg hlin]
-        refine ⟨hl2, rfl, rfl, rfl, rfl, rfl, rfl, rfl, rfl, fun _ _ hh => hh, fun _ _ => rfl, ?_, fun _ => rfl⟩
+        refine ⟨hl2, rfl, rfl, rfl, rfl, rfl, rfl, rfl, fun _ _ hh => hh, fun _ _ => rfl, ?_, fun _ => rfl⟩
         intro hc2; exact absurd hc2 hlin
-    obtain ⟨db3, hdb3, hl3, f1, f2, f3, f4, f5, f6, f7, f8, f9, f10, f11, f12⟩ := hw
+    obtain ⟨db3, hdb3, hl3, f1, f2, f3, f4, f6, f7, f8, f9, f10, f11, f12⟩ := hw
     simp only [hdb3] at h
-    have hld : db3.loaded = false := by rw [f5, e_loaded, hnl]
-    simp only [hld, Bool.false_eq_true, if_false, Prod.mk.injEq, Except.ok.injEq] at h
+    simp only [Prod.mk.injEq, Except.ok.injEq] at h
     obtain ⟨hdb', hn⟩ := h
-    refine ⟨kept, rfl, hn.symm, hfresh, by simpa using hk, by simpa using hm, ?_, ?_, ?_, ?_, ?_, ?_⟩
+    refine ⟨kept, rfl, hn.symm, hfresh, by simpa using hk, by simpa using hm, ?_, ?_, ?_, ?_, ?_⟩
     · -- QRep
       have hlen : db.nextIndex = log.length := hq.nextIndex
       have hent : entryOf sig ident lineage kept = ⟨ident', sig.name, kept, lineage⟩ := by
@@ -455,8 +463,7 @@ theorem insert_ok {db : Db} {log : List Entry} (hq : QRep db log) (hl : LinInv d
         · simp only [hx, if_false] at hs
           exact hq.hv_nonempty x s hs
     · rw [← hdb']
-      exact ⟨hl3.to_lid, hl3.lid_lt, hl3.lid_nodup⟩
-    · rw [← hdb']
+      exact ⟨hl3.to_lid, hl3.lid_lt, hl3.lid_nodup, hl3.lid_used⟩
     · rw [← hdb']; simp only [f6, e_scaled]
     · rw [← hdb']; simp only [f7, e_ksize]
     · rw [← hdb']; simp only [f8, e_mol]
